@@ -13,7 +13,7 @@ ASSUMPTIONS = p_c01.ASSUMPTIONS + ["error text of the NACK is not compared (only
 class Part(p_c01.Part):
     @staticmethod
     def PROJECT(v, c, o):
-        (cache, lookup, reqs, watched, acks, table, closed, s1, s2, s3, s4, s10, s19) = v
+        (cache, lookup, reqs, watched, acks, table, closed, s1, s2, s3, s4, s10, s19, sfull) = v
         return (reqs and acks and cache and table, s2)
 
     @classmethod
